@@ -37,13 +37,23 @@ def run(ctx):
     for i in range(nsc):
         iss = rng.choice(tcplib.WRAP_ISS) if i % 5 == 0 else None
         scs.append(tcplib.random_scenario(rng, i, maxbytes=maxb if i % 4 else 2000, iss=iss))
+    # deterministic: several writes of different sizes whose segments straddle the 2^32 / 2^31 wrap of the sender's sequence space
+    for k, (hi, below) in enumerate([(0xffff, 100), (0xffff, 255), (0xffff, 1), (0x7fff, 100), (0xffff, 700), (0xffff, 2)][:ctx.pick(4, 6)]):
+        scs.append(dict(v=4 if k % 2 else 6, mtu=1500, sack=True, cc='', deadline_ms=20000, seed=9000 + k, flags={},
+                        tag='wrap-writes%d-iss%04x%04x' % (k, hi, 0x10000 - below),
+                        a=dict(writes=[200, 300, 50, 700, 1, 1500], write_gap_us=15000, shutdown=True, iss=[hi, 0x10000 - below]),
+                        b=dict(writes=[300], shutdown=True), a2b=dict(), b2a=dict()))
     segs, stats, rep = tcplib.run_pair(ctx, drv, scs, ['C01'], 'c01', what='TCP stream')
     ctx.extra.update(stats)
     ctx.extra['wrap_adjacent_iss_scenarios'] = sum(1 for s in scs if 'iss' in s['a'])
     ctx.sample(dict(kind='scenario', scenario=scs[1]))
     ctx.sample(dict(kind='trace', events=tcplib.sample_trace(segs[1], 12)))
     # ---- binding self-test: corrupt one delivered byte, drop one arrive event
-    base = next(s for s in segs if any(e['ev'] == 'read' for e in s) and s[-1].get('why') == 'done')
+    # (a fault-free trace: with losses or duplicates a missing arrival may be covered by another copy of the segment)
+    clean = lambda s: not any(e['ev'] == 'drop' or (e['ev'] == 'arrive' and e.get('how') != 'pass') for e in s)
+    base = next((s for s in segs if clean(s) and any(e['ev'] == 'read' for e in s) and s[-1].get('why') == 'done'), None)
+    if base is None:
+        raise vlib.Inconclusive('binding self-test: no fault-free completed transfer among the scenarios')
     bad = copy.deepcopy(base)
     for e in bad:
         if e['ev'] == 'read':
